@@ -34,8 +34,12 @@ Definition I2 := (list Q * list Q)%type.
 
 
 def q(x):
+    """Q literal; dyadic denominators are written as powers of two (large decimal literals are slow to elaborate)"""
     x = Fr(x)
-    return "(%d # %d)" % (x.numerator, x.denominator)
+    d = x.denominator
+    if d > 1 and d & (d - 1) == 0:
+        return "(Qmake (%d) (Pos.pow 2 %d))" % (x.numerator, d.bit_length() - 1)
+    return "(Qmake (%d) %d)" % (x.numerator, d)
 
 
 def qv(v):
@@ -132,11 +136,11 @@ def parse_pairs(txt):
     """[[(n, d); ...]; ...] or [Some [...]; None] -> list of lists of Fractions / None"""
     out = []
     body = txt.strip()
-    for m in re.finditer(r"None|\[((?:\s*\(\s*-?\d+\s*,\s*\d+\s*\)\s*;?)*)\]", body):
+    for m in re.finditer(r"None|\[((?:\s*\(\s*\(?-?\d+\)?\s*,\s*\d+\s*\)\s*;?)*)\]", body):
         if m.group(0) == "None":
             out.append(None)
         else:
-            out.append([Fr(int(a), int(b)) for a, b in re.findall(r"\(\s*(-?\d+)\s*,\s*(\d+)\s*\)", m.group(1))])
+            out.append([Fr(int(a), int(b)) for a, b in re.findall(r"\(\s*\(?(-?\d+)\)?\s*,\s*(\d+)\s*\)", m.group(1))])
     return out
 
 
